@@ -29,7 +29,7 @@ METHODS = [("BaseInt", "validate"), ("BaseFloat", "validate"), ("BaseComplex", "
            ("BaseRange", "validate"), ("BaseRange", "float_validate"), ("BaseRange", "int_validate"),
            ("BaseEnum", "validate"), ("Map", "validate"),
            ("BaseInstance", "validate"), ("Type", "validate"), ("_NoneTrait", "validate"),
-           ("Tuple", "validate"), ("Union", "validate")]
+           ("Tuple", "validate"), ("Union", "validate"), ("BaseTuple", "validate")]
 # methods of traits/trait_handlers.py
 HANDLER_METHODS = [("TraitCompound", "validate"), ("TraitCompound", "slow_validate"),
                    ("TraitCoerceType", "validate"), ("TraitCastType", "validate"), ("TraitInstance", "validate"), ("TraitFunction", "validate"),
@@ -158,6 +158,10 @@ class Fn:
             for k, v in ops.items():
                 if isinstance(n.ops[0], k):
                     return "(%s %s %s)" % (v, E(n.left), E(n.comparators[0]))
+        if isinstance(n, ast.List) and not n.elts:
+            return ".emptyList"
+        if isinstance(n, ast.Subscript) and isinstance(n.slice, ast.Name) and n.slice.id in self.slots:
+            return "(.subscript %s %s)" % (E(n.value), E(n.slice))
         if isinstance(n, ast.Subscript):
             s = n.slice
             if isinstance(s, ast.Constant) and type(s.value) is int:
@@ -187,6 +191,11 @@ class Fn:
             if (isinstance(n.value, ast.Call) and isinstance(n.value.func, ast.Attribute)
                     and isinstance(n.value.func.value, ast.Name) and n.value.func.value.id == "warnings"):
                 return None                       # warnings.warn(...)
+            v = n.value
+            if (isinstance(v, ast.Call) and isinstance(v.func, ast.Attribute) and v.func.attr == "append"
+                    and isinstance(v.func.value, ast.Name) and v.func.value.id in self.slots
+                    and v.func.value.id != "self" and len(v.args) == 1 and not v.keywords):
+                return "(.append %d %s)" % (self.slots[v.func.value.id], self.ex(v.args[0]))
             return "(.expr %s)" % self.ex(n.value)
         if isinstance(n, ast.ImportFrom):
             return None
@@ -199,6 +208,13 @@ class Fn:
             return "(.assign %d %s)" % (self.slot(n.targets[0].id), e)
         if isinstance(n, ast.If):
             return "(.ite %s %s %s)" % (self.ex(n.test), self.block(n.body), self.block(n.orelse))
+        if (isinstance(n, ast.For) and not n.orelse and isinstance(n.target, ast.Tuple) and len(n.target.elts) == 2
+                and all(isinstance(x, ast.Name) for x in n.target.elts) and isinstance(n.iter, ast.Call)
+                and isinstance(n.iter.func, ast.Name) and n.iter.func.id == "enumerate"
+                and len(n.iter.args) == 1 and not n.iter.keywords):
+            it = self.ex(n.iter.args[0])
+            i, j = self.slot(n.target.elts[0].id), self.slot(n.target.elts[1].id)
+            return "(.forEnum %d %d %s %s)" % (i, j, it, self.block(n.body))
         if isinstance(n, ast.For):
             if n.orelse or not isinstance(n.target, ast.Name):
                 raise Unknown("%s: unsupported for loop" % self.fn.name)
